@@ -14,8 +14,9 @@ import VerifModel.Model.TextInput
   Reply: the canonical dataset line
     T=<times> L=<leadtimes> IDS=<ids> LOC=<lat:lon:elev,…> obs=… fcst=… pit=… THR=… thr=… Q=… q=…
     M=… ens=… O=<hex name=vec;… sorted by hex name> V=<hex name>:<hex units>:<x0>:<x1>
-  locations sorted by id (file has an id column) or by (lat, lon, elev) (ids assigned by the
-  reader; IDS is then the ascending list of assigned ids), arrays row-major.
+  locations sorted by id (file has an id column; a location whose id token is missing sorts by
+  the id the reader assigns to it) or by (lat, lon, elev) (ids assigned by the reader; IDS is then
+  the ascending list of assigned ids), arrays row-major.
 -/
 /-
     textsplit <tag> <hex of one text line>  ->  `c:` or `r:` followed by the hex words (`;`)
@@ -90,7 +91,7 @@ def isort {α} (lt : α → α → Bool) : List α → List α
     ins x (isort lt xs)
 
 def locLt (byId : Bool) (a b : Loc × XR) : Bool :=
-  if byId then XR.lt a.1.id b.1.id
+  if byId then XR.lt a.2 b.2      -- the id after the assignment loop (= the id read, when there is one)
   else XR.lt a.1.lat b.1.lat || (a.1.lat == b.1.lat &&
     (XR.lt a.1.lon b.1.lon || (a.1.lon == b.1.lon && XR.lt a.1.elev b.1.elev)))
 
